@@ -65,6 +65,16 @@ def exact_case(chk, r, kind, els, total, p, as_type, tag):
     if len(hd) != n or any(h < 0 or h >= 4 ** p for h in hd):
         chk.violation("hilbert_distance/out-of-range", dict(rep, impl=hd), size=n)
         return
+    # the same coordinates stored in single precision (all of them exact there): the centre of a box is the centre of the numbers,
+    # whatever the storage type - `lo + hi` must not be rounded to the storage precision
+    if all(abs(c) < 2 ** 24 for e in els if e is not None for v in geo.verts_of(kind, e) for c in v):
+        try:
+            hd32 = [int(x) for x in geo.make_array(kind, els, "float32").hilbert_distance(total_bounds=None if arg is None else [float(v) for v in total], p=p)]
+        except Exception as e:  # noqa: BLE001
+            chk.violation(f"hilbert_distance/raises-{common.err_kind(e)}/float32-storage", dict(rep, error=repr(e)[:200]), size=n); return
+        if hd32 != hd:
+            chk.violation("hilbert_distance/depends-on-coordinate-subtype/float32-centre", dict(rep, float32=hd32, float64=hd), size=n); return
+        chk.count("float32-storage")
     eff_total = total
     if total is None:
         fin = [row for row in rows if row is not None]
@@ -142,7 +152,7 @@ def run_cases(chk, tier):
         p = r.choice((1, 2, 3, 5, 10, 15, 20, 31)) if k % 3 else r.randint(1, 31)
         ex, ey = r.choice((1, 2, 4, 16, 1024)), r.choice((1, 2, 8, 64, 4096))
         # offsets far from the origin relative to the extent (a relative-tolerance comparison of the ends would call them equal)
-        lo = (r.choice((0, -8, 1000, -3, 2 ** 22, -2 ** 25)), r.choice((0, 16, -1024, 5, 2 ** 24, -2 ** 21)))
+        lo = (r.choice((0, -8, 1000, -3, 2 ** 22, -2 ** 25, 2 ** 23)), r.choice((0, 16, -1024, 5, 2 ** 24, -2 ** 21, 2 ** 23 - 7)))
         total = [lo[0], lo[1], lo[0] + ex, lo[1] + ey]
         mode = k % 8
         if mode == 5:
@@ -185,6 +195,9 @@ def _element(r, kind, cx, cy, s):
     """an element of `kind` whose bounding-box centre is (cx, cy) (integer half-extents)"""
     hx, hy = r.randint(0, s), r.randint(0, s)
     x0, x1, y0, y1 = cx - hx, cx + hx, cy - hy, cy + hy
+    if s and r.random() < 0.4:
+        # odd width / height: the centre is a half-integer (lo + hi is odd)
+        x1 += r.choice((0, 1)); y1 += r.choice((0, 1))
     if kind == "point":
         return [cx, cy]
     if kind in ("multipoint", "line"):
